@@ -476,6 +476,44 @@ def forms_pass(ctx, ops):
                     if ge != gg or inexact:
                         ctx.violation('float-signature', {**case, 'inexact_blades': inexact}, str(ge)[:250], str(gg)[:250], key=f'{op}:float-signature')
                         break
+    # (8) the SAME key-tuple objects handed to several algebras of one dimension but different signature (a module constant
+    # `KEYS = (1, 2)` in user code), in both visiting orders; (9) the pseudoscalar alone as right / left operand in d = 8
+    shared = [((1, 2), (1, 2)), ((1, 2, 3), (2, 1)), ((3,), (1, 3)), ((0, 3), (3, 0))]
+    for order in (0, 1):
+        group = [make_algebra(sg) for sg in ([1, 1], [1, -1], [-1, -1], [0, 1], [-1, 1])]
+        if order:
+            group.reverse()
+        for alg in group:
+            Ssig = alg.signs
+            for kx, ky in shared:                      # kx, ky are the very same tuple objects for every algebra
+                for op in ops:
+                    if op not in BIN or op not in REFBIN:
+                        continue
+                    vx = [Fraction(rng.randint(1, 9)) for _ in kx]; vy = [Fraction(rng.randint(1, 9)) for _ in ky]
+                    case = {'sig': [int(v) for v in alg.signature], 'op': op, 'kx': list(kx), 'ky': list(ky), 'history': 'the same key-tuple objects were used with other algebras before'}
+                    ctx.case(case, tag='shared-key-objects')
+                    try:
+                        got = mv_to_dict(BIN[op](MultiVector.fromkeysvalues(alg, kx, list(vx)), MultiVector.fromkeysvalues(alg, ky, list(vy))))
+                    except ZeroDivisionError:
+                        continue
+                    exp = {k: v for k, v in REFBIN[op](Ssig, dict(zip(kx, vx)), dict(zip(ky, vy))).items() if v != 0}
+                    if got != exp:
+                        ctx.violation('shared-key-objects', case, str(exp)[:250], str(got)[:250], key=f'{op}:shared-key-objects')
+    if 'gp' in ops:
+        for sig8 in ([1] * 8, [1, 1, 1, 1, 1, 1, -1, -1]):
+            alg = make_algebra(list(sig8))
+            Ssig = alg.signs
+            pss = 2 ** 8 - 1
+            for kx in ([1, 2, 4], [1, 6, 7], [3, 13, 1]):
+                vx = [Fraction(rng.randint(1, 9)) for _ in kx]
+                for side in ('x * I', 'I * x'):
+                    case = {'sig': list(sig8), 'op': 'gp', 'form': side, 'kx': kx}
+                    ctx.case(case, tag='pseudoscalar-operand-d8')
+                    x = MultiVector.fromkeysvalues(alg, tuple(kx), list(vx)); I = MultiVector.fromkeysvalues(alg, (pss,), [Fraction(3)])
+                    got = mv_to_dict(x * I if side == 'x * I' else I * x)
+                    exp = REFBIN['gp'](Ssig, dict(zip(kx, vx)), {pss: Fraction(3)}) if side == 'x * I' else REFBIN['gp'](Ssig, {pss: Fraction(3)}, dict(zip(kx, vx)))
+                    if got != {k: v for k, v in exp.items() if v != 0}:
+                        ctx.violation('oracle', case, str(exp)[:200], str(got)[:200], key='gp:pseudoscalar-operand:d8')
     # (5) symbolic operands whose coefficients are not polynomial (roots and logarithms of products): the result coefficients are
     # compared with the reference over the sign table *as functions*: exactly, after substituting negative numbers
     import sympy
